@@ -18,7 +18,7 @@ class _Subst(ast.NodeTransformer):
 
 class SpecMixin:
     SPEC_FUNCS = {"forall", "exists", "forall2", "implies", "iff", "old", "strictly_increasing", "nondecreasing",
-                  "member", "psum", "same", "ite", "unchanged", "is_none", "card", "psum_monotone", "mpow", "wsum", "intro_all", "intro", "dict_values_in", "lemma", "ksum", "ksum_split", "ksum_shift", "ksum_perm", "is_int", "define", "by", "psum_bound"}
+                  "member", "psum", "same", "ite", "unchanged", "is_none", "card", "psum_monotone", "mpow", "wsum", "intro_all", "intro", "dict_values_in", "lemma", "ksum", "ksum_split", "ksum_shift", "ksum_perm", "is_int", "define", "by", "psum_bound", "unfold"}
 
     def parse_spec(self, src):
         if src not in self._spec_cache:
@@ -441,6 +441,19 @@ class SpecMixin:
         st.assume(z3.ForAll([k], g(k) == body, patterns=[g(k)]), derived=True)   # conservative: g is fresh
         st.ghost = dict(st.ghost)
         st.ghost[name] = g
+        st.ghost["__def_" + name] = (g, k, body)
+        return Sc("bool", z3.BoolVal(True))
+
+    def spec_unfold(self, node, st):
+        """unfold('F', e): ghost code only - states the instance F(e) == body(e) of F's defining equation (see define), so that the
+        solver does not have to find it."""
+        name = node.args[0].value
+        d = st.ghost.get("__def_" + name)
+        if d is None:
+            raise VCError("unfold of %s: no definition in scope" % name)
+        g, k, body = d
+        arg = self.eval_int(node.args[1], st)
+        st.assume(g(arg) == z3.substitute(body, (k, arg)), derived=True)
         return Sc("bool", z3.BoolVal(True))
 
     def spec_is_int(self, node, st):
